@@ -41,6 +41,13 @@ NEEDS = {
  'C09b': ('PixelDropout draws the float drop value from np.random instead of the seeded state', 'PixelDropout(drop_value=None) on a float image, numpy global state differing between runs'),
  'C10b': ('DataProcessor.postprocess unpacks the image shape as (cols, rows, slices)', 'Compose with pixel-format boxes or keypoints on a frame with rows != cols, no transform firing'),
  'C17b': ('PadIfNeeded.apply_to_bbox shifts z_max by pad_back (same edit as C02, produced independently for C17)', 'PadIfNeeded with pad_front != pad_back followed by the inverse Crop, boxes'),
+ # ---- third wave (told about both earlier changes; asked for less obvious places) ----
+ 'C01c': ('Compose.get_dict_with_id no longer records additional_targets', 'ReplayCompose with additional_targets, replay() called with the aliased targets'),
+ 'C03c': ('filter_keypoints drops x > cols - 1 (last-voxel band) instead of x >= cols', 'keypoint with a fractional coordinate inside the last voxel of an axis, remove_invisible=True'),
+ 'C06c': ('DualTransform.apply_to_masks calls self.apply with nearest interpolation instead of self.apply_to_mask', 'the masks=[...] target with Rotate / ShiftScaleRotate / PadIfNeeded / CropAndPad / dropouts (own apply_to_mask skipped)'),
+ 'C11c': ('dicom_scale multiplies np.asarray(dicom["PixelSpacing"]) in place', 'header whose PixelSpacing is a float64 ndarray, any transform that rescales the spacing'),
+ 'C14c': ('serialization.load reads JSON files with yaml.safe_load', 'save / load with data_format="json" and a float whose repr is exponent form without a dot (1e-05)'),
+ 'C16c': ('RandomRotate90.apply_to_dicom swaps the spacing only for abs(factor) == 1', 'RandomRotate90 in the xy plane drawing factor 3, anisotropic PixelSpacing'),
  'C20b': ('GridDropout loops k over range(height // unit_depth + 1)', 'GridDropout on a volume whose depth exceeds its height by a grid unit or more'),
 }
 detected = json.load(open(os.path.join(V, 'seeded', 'detected.json'))) if os.path.exists(os.path.join(V, 'seeded', 'detected.json')) else {}
